@@ -728,7 +728,11 @@ func (root *Root) resolveFragRef(
 	depth int) (ea []error) {
 
 	if sel.Fragment.Condition == nil || sel.Fragment.Condition == t {
-		ea = root.resolveSels(obj, vars, sel.Fragment.Sels, t, result, depth)
+		if depth <= 0 {
+			// Fragment spreads can form a cycle so they count against the maximum depth.
+			return []error{resError(sel.Line(), sel.Column(), "fragment %s is nested too deep", sel.Fragment.Name)}
+		}
+		ea = root.resolveSels(obj, vars, sel.Fragment.Sels, t, result, depth-1)
 		if 0 < len(ea) {
 			Errors(ea).in(fmt.Sprintf("fragment at %d:%d", sel.Line(), sel.Column()))
 		}
